@@ -139,6 +139,25 @@ def body(env, cfg):
                 raise Unexpected(f"KnotVector({bad!r}) raised {type(e).__name__} instead of ValueError")
             raise Unexpected(f"KnotVector({bad!r}) was accepted")
         env.holds("malformed data rejected with ValueError", True)
+        # NaN is not a number a knot vector can hold (outside the solver's reals: checked by enumeration)
+        nan = float("nan")
+        for bad in ([0, 0, nan, 1, 1], [nan, nan, 1, 1], [0, 0, 1, nan], [0.0, 0.0, 0.5, nan, 1.0, 1.0]):
+            try:
+                KnotVector(bad)
+            except ValueError:
+                continue
+            raise Unexpected(f"KnotVector({bad!r}) was accepted")
+        for name, fn in [("shift(nan)", lambda v: v.shift(nan)), ("+= nan", lambda v: v.__iadd__(nan)), ("scale(nan)", lambda v: v.scale(nan)),
+                         ("insert([nan])", lambda v: v.insert([nan]))]:
+            v = KnotVector([0, 0, Fraction(1, 2), 1, 1])
+            before = tuple(v)
+            try:
+                fn(v)
+            except (ValueError, AssertionError):
+                same_objects(env, before, v, name)
+                continue
+            raise Unexpected(f"{name} was accepted: {tuple(v)!r}")
+        env.holds("NaN rejected, object unchanged", True)
         return
 
     if cfg["kind"] == "close":
